@@ -9,6 +9,7 @@ CONSTANTS
   TdMasks <- AllMasks
   InitSel <- InitEnv
   SThr <- SThrHalf
+  DFree = FALSE
   Export = TRUE
 INIT Init
 NEXT Next
